@@ -175,7 +175,14 @@ type rewriter struct {
 }
 
 func (r *rewriter) site(n ast.Node, kind string) string {
-	p := r.fset.Position(n.Pos())
+	pos := n.Pos()
+	if ix, ok := n.(*ast.IndexExpr); ok {
+		pos = ix.Lbrack // the operand may already have been replaced by a synthetic node without position
+	}
+	if call, ok := n.(*ast.CallExpr); ok && call.Lparen.IsValid() {
+		pos = call.Lparen
+	}
+	p := r.fset.Position(pos)
 	s := fmt.Sprintf("%s:%d", filepath.Base(p.Filename), p.Line)
 	r.rep.Sites = append(r.rep.Sites, site{Pos: fmt.Sprintf("%s:%d", p.Filename, p.Line), Kind: kind})
 	return s
@@ -431,10 +438,34 @@ func (r *rewriter) postSched(c *astutil.Cursor) {
 			} else if isChan(r.typeOf(n.Args[0])) {
 				r.rep.Skipped = append(r.rep.Skipped, site{Pos: r.fset.Position(n.Pos()).String(), Kind: "make of named chan type"})
 			}
+		case r.isBuiltin(n.Fun, "delete") && len(n.Args) == 2 && isMap(r.typeOf(n.Args[0])):
+			n.Args[0] = &ast.CallExpr{Fun: r.vrt("MapW"), Args: []ast.Expr{str(r.site(n, "map-delete")), n.Args[0]}}
+		case r.isBuiltin(n.Fun, "len") && len(n.Args) == 1 && isMap(r.typeOf(n.Args[0])):
+			n.Args[0] = &ast.CallExpr{Fun: r.vrt("MapR"), Args: []ast.Expr{str(r.site(n, "map-len")), n.Args[0]}}
 		case r.isBuiltin(n.Fun, "close") && len(n.Args) == 1:
 			c.Replace(&ast.CallExpr{Fun: r.vrt("Close"), Args: []ast.Expr{str(r.site(n, "close")), n.Args[0]}})
 		case (r.isBuiltin(n.Fun, "len") || r.isBuiltin(n.Fun, "cap")) && len(n.Args) == 1 && isChan(r.typeOf(n.Args[0])):
 			c.Replace(&ast.CallExpr{Fun: r.vrt("Len"), Args: []ast.Expr{n.Args[0]}})
+		}
+	case *ast.IndexExpr:
+		if !isMap(r.typeOf(n.X)) {
+			return
+		}
+		write := false
+		switch p := c.Parent().(type) {
+		case *ast.AssignStmt:
+			for _, l := range p.Lhs {
+				if l == n {
+					write = true
+				}
+			}
+		case *ast.IncDecStmt:
+			write = p.X == n
+		}
+		if write {
+			n.X = &ast.CallExpr{Fun: r.vrt("MapW"), Args: []ast.Expr{str(r.site(n, "map-write")), n.X}}
+		} else {
+			n.X = &ast.CallExpr{Fun: r.vrt("MapR"), Args: []ast.Expr{str(r.site(n, "map-read")), n.X}}
 		}
 	case *ast.SendStmt:
 		c.Replace(&ast.ExprStmt{X: &ast.CallExpr{Fun: r.vrt("Send"), Args: []ast.Expr{str(r.site(n, "send")), n.Chan, n.Value}}})
@@ -601,11 +632,15 @@ func (r *rewriter) rangeMap(n *ast.RangeStmt) []ast.Stmt {
 		id, ok := e.(*ast.Ident)
 		return e == nil || (ok && id.Name == "_")
 	}
+	var elemMap ast.Expr = mv
+	if r.profile == "sched" {
+		elemMap = &ast.CallExpr{Fun: r.vrt("MapR"), Args: []ast.Expr{str(r.site(n, "map-range-elem")), mv}}
+	}
 	if n.Tok == token.ASSIGN {
 		pre = append(pre, &ast.DeclStmt{Decl: &ast.GenDecl{Tok: token.VAR, Specs: []ast.Spec{&ast.ValueSpec{Names: []*ast.Ident{okv}, Type: ast.NewIdent("bool")}}}})
-		body = append(body, &ast.AssignStmt{Lhs: []ast.Expr{val, okv}, Tok: token.ASSIGN, Rhs: []ast.Expr{&ast.IndexExpr{X: mv, Index: kv}}})
+		body = append(body, &ast.AssignStmt{Lhs: []ast.Expr{val, okv}, Tok: token.ASSIGN, Rhs: []ast.Expr{&ast.IndexExpr{X: elemMap, Index: kv}}})
 	} else {
-		body = append(body, &ast.AssignStmt{Lhs: []ast.Expr{val, okv}, Tok: token.DEFINE, Rhs: []ast.Expr{&ast.IndexExpr{X: mv, Index: kv}}})
+		body = append(body, &ast.AssignStmt{Lhs: []ast.Expr{val, okv}, Tok: token.DEFINE, Rhs: []ast.Expr{&ast.IndexExpr{X: elemMap, Index: kv}}})
 	}
 	body = append(body, &ast.IfStmt{Cond: &ast.UnaryExpr{Op: token.NOT, X: okv}, Body: &ast.BlockStmt{List: []ast.Stmt{&ast.BranchStmt{Tok: token.CONTINUE}}}})
 	if !isBlank(n.Key) {
